@@ -27,7 +27,7 @@ PREDS = {
             "Inv_GrantMatchesEligibility", "Inv_SharesEncoding", "Inv_LiveHoldsGrant"},
     "C02": {"Inv_BalloonsDisjoint", "Inv_BalloonsWithinAllowed", "Inv_FreeCpusAreUnowned", "Inv_OneBalloonPerCtr",
             "Inv_SharedIdleNotOwned", "Inv_MinMaxCpus", "Inv_MinMaxInstances", "Inv_NonEmptyHasCpus", "Inv_ToldIsCpusPlusShared",
-            "Inv_SharedIdleCoversScope", "Inv_SharedIdleNotIsolated"},
+            "Inv_SharedIdleCoversScope", "Inv_SharedIdleNotIsolated", "Inv_CpuClass"},
     "C04": {"Inv_MemsFollowAllocator", "Inv_MemsNonEmptyExisting", "Inv_NoZoneOvercommit"},
     "C05": {"Inv_RuntimeEqualsCache", "Inv_NothingPending", "Act_NoUpdateToDead", "Act_AtMostOneUpdatePerCtr",
             "Act_AdjustmentDescribesCreated"},
